@@ -24,4 +24,13 @@ CLAIMS = {
                 "hyperframe wrap; each due burst is forwarded once, each stale one logged; power-off clears every selected queue.",
         "note": TB + "Not decided: exactly-once over all histories as such (induction over these premises is argued in DESIGN.md), fairness of the clock thread.",
     },
+    "C13": {
+        "technique": "accepted-set extraction by abstract interpretation (interval / None / enum-symbol domains) of the comparison-only validate() chain, exact box-set comparison with the range table; exception-class and dominance rules",
+        "text": "Decides the iff of the statement for all field assignments at once: the set of (class, version, NOPE, modulation, "
+                "field values incl. None) accepted by validate() equals the protocol ranges of spec/ranges.json exactly (both "
+                "inclusions, per field and as a whole); every reachable rejection raises ValueError and cannot raise another class "
+                "while building its message or comparing a None field; validate() dominates every buffer write of gen_msg; send() is "
+                "unreachable from send_msg's rejection handler and nothing sends on a data interface bypassing send_msg.",
+        "note": TB + "Fields are assumed to hold ints or None (the property's quantifier). Validity of burst *contents* is not constrained by the statement.",
+    },
 }
